@@ -448,7 +448,8 @@ def compile_ast(
         else:
             assert nd.how != "full"
             if nd.how == "left":
-                df = df.with_columns(__INDEX__=pl.int_range(0, pl.len(), dtype=pl.Int64))
+                index_name = f"__INDEX__:{str(hex(uuid.uuid1().int))[2:]}"
+                df = df.with_columns(pl.int_range(0, pl.len(), dtype=pl.Int64).alias(index_name))
 
             joined = df.join_where(
                 right_df,
@@ -465,7 +466,11 @@ def compile_ast(
             )
 
             if nd.how == "left":
-                joined = df.join(joined, on="__INDEX__", how="left").drop("__INDEX__")
+                # only take the right columns from `joined`, the left ones would be
+                # duplicated with a `_right` suffix
+                joined = df.join(
+                    joined.select(index_name, *right_name_in_df.values()), on=index_name, how="left"
+                ).drop(index_name)
 
             df = joined
 
